@@ -23,6 +23,11 @@ checks = {
    text="3.8 M (quick) / 25 M (thorough) cases: every URL text of the grammar product in seed, redirect-target and asset position under every on/off combination of the five filter kinds goes through the real preprocess(); every request that leaves the stage is judged by a predicate written from the property's words only.",
    note="Archiver sends GetRequest() unchanged and never follows redirects itself (read from the code); literal readings (localhost., 127.0.0.2) counted, not alarmed.",
    ref="4/C05"),
+ "C06": dict(level="model_checking", engine="explore",
+   technique="exhaustive enumeration of adversarial server families x settings through the real pipeline under the controlled scheduler and virtual clock (canonical schedule with all select outcomes; thorough: every schedule within 2 deviations); bounds read from the transport log and the produce channel",
+   text="1 260 scenarios = 9 families (endless redirect chain, redirect loop, self-redirect, endlessly nested playlists, JSON->JSON, self-embedding page, always-500, 429-then-200, hub with in-site/off-site links and a redirecting asset) x max-redirect {0..3} x max-retry {0,1,2} x max-hops {0,1,2} x domains-crawl {off, matching, other} x seed hops; oracle: the seed finishes; requests along a redirect chain <= max-redirect+1; no embedded resource deeper than three levels (domains-crawl off); attempts per URL per visit <= max-retry+1; every queued outlink obeys the hop rules; assets and redirect targets carry the page's hops.",
+   note="Nested families only with --domains-crawl off (the property exempts the depth bound otherwise; with it active they never end). Completeness of outlink queueing is C07's business, only the bound is judged here.",
+   ref="4/C06"),
  "C07": dict(level="exploration", engine="grid",
    technique="exhaustive enumeration of generated HTML documents (carrier x quoting x reference form x nesting x page URL x settings, plus all carrier pairs) through the real ProcessBody, postprocess() and preprocess(); expected URLs from a table cross-checked against net/url.ResolveReference",
    text="281 k (quick) / 2.36 M (thorough) evaluations; every planted reference must be requested as an asset (or handed over as an outlink) exactly when none of the property's exceptions applies, and must not be when a listed exception applies.",
@@ -33,6 +38,11 @@ checks = {
    text="462 k (quick) / 6.4 M (thorough) URL texts x parents; determinism under every map order and repeated evaluation, idempotence of Raw and String(), shape of accepted results, agreement with net/url.ResolveReference for relative forms, order and multiplicity of query pairs.",
    note="Loopback read literally (localhost, 127.0.0.1); empty reference rejected by ada carries no demand.",
    ref="4/C09"),
+ "C10": dict(level="exploration", engine="grid",
+   technique="exhaustive enumeration of all token strings up to length N per input format and of the complete 1-mutation (thorough: partly 2-mutation) neighbourhood of valid samples, each through the real ProcessBody -> postprocessItem -> NormalizeURL path in crash-isolating worker processes",
+   text="1.12 M (quick) / 22.6 M (thorough) distinct cases over 15 dispatch profiles (content-type x server x URL): no panic, no fatal error, every case returns within the watchdog; malformed input costs at most that URL.",
+   note="Decides the property for the enumerated token languages and mutation neighbourhoods only (arbitrary byte strings cannot be enumerated; coverage-guided search is a different family). max-hops 1 so that the outlink extractors are reachable.",
+   ref="4/C10"),
  "C11": dict(level="model_checking", engine="opbfs",
    technique="explicit-state breadth-first search over stage-shaped operation sequences on the real item tree with a reference tree run in lock-step, plus exhaustive small-scope enumeration of reachable tree shapes",
    text="All histories of preprocess/archive/postprocess/finisher passes from a fresh seed up to 6 (quick) / 8 (thorough) nodes: 60 k / 2 M canonical states; in every state CheckConsistency, direct structural checks, dedupe exactness (one node per URL, no URL lost), completion <=> nothing pending, equality with the reference tree.",
